@@ -391,12 +391,52 @@ def _stat_rows(v):
     return sums._rows_cond(axes[0], z3.BoolVal(True))
 
 
+def _occurs(sym, term):
+    """does the term `sym` occur in `term`?"""
+    seen, todo = set(), [term]
+    while todo:
+        t = todo.pop()
+        if t.get_id() in seen:
+            continue
+        seen.add(t.get_id())
+        if z3.eq(t, sym):
+            return True
+        todo.extend(t.children())
+    return False
+
+
 def weighted_median_contract(interp, x, weights):
-    """math_utils.weighted_median(x, w): A-WM -- a function of the multiset {(x_i, w_i)} of the rows it is given (finite)"""
+    """math_utils.weighted_median(x, w): a function of the multiset {(x_i, w_i)} of the rows it is given (finite) -- the
+    postcondition proved for the body in contracts/C15.py (weighted_median.body, weighted_median.order_insensitive)"""
     from . import sums
 
-    _use("A-WM: math_utils.weighted_median(x, w) is a finite function of the multiset of (x_i, w_i) of its rows")
+    _use("weighted_median(x, w) as a statistic of the multiset of (x_i, w_i) of its rows: PROVED for the real body in units C15.weighted_median.body / .order_insensitive (preconditions: >= 1 row, weights > 0 summing to 1 -- obligations at every call)")
     root, dom = _stat_rows(x)
+    # the preconditions under which the BODY is verified (unit C15.weighted_median.body): at least one row, weights that are
+    # non-negative and sum to one -- obligations of the caller, for every group pandas calls the function for
+    wt = real(to_term(weights) if not isinstance(weights, V) else weights.t)
+    ctx = interp.ctx
+    facts = z3.And(*root.facts())
+    cg = getattr(interp, "current_group", None)
+    guard = cg["present"] if cg and cg["root"] is root else z3.BoolVal(True)
+    wrow = cg["witness"] if cg and cg["root"] is root else None
+    n_ob = ctx.__dict__.setdefault("_wm_calls", [0])
+    n_ob[0] += 1
+    tag = f"weighted_median.call{n_ob[0]}.pre"
+    # ghost: a group total that occurs in the weights is at least the entry of the group's witness row (sum_ge_member; its
+    # side condition -- non-negative summands -- is an obligation)
+    if wrow is not None:
+        for d_ in list(sums._registry(ctx)):
+            if d_.space is root and z3.eq(z3.simplify(d_.dom), z3.simplify(dom)) and _occurs(d_.sym, wt):
+                sums.lemma_sum_ge_member(ctx, d_, wrow, name=f"{tag}.lemma.total_at_least_witness_row")
+    # (strictly positive: with a zero weight the result of the body would depend on the order of tied rows -- see the
+    # unit C15.weighted_median.order_insensitive, which is what justifies treating the result as a statistic of the rows)
+    ctx.oblige(f"{tag}.weights_positive", z3.Implies(z3.And(facts, dom, guard), wt > 0), kind="pre")
+    total, dtot = sums.formal_sum_dom(ctx, root, dom, wt)
+    ctx.oblige(f"{tag}.weights_sum_to_one", z3.Implies(guard, real(total) == 1), kind="pre")
+    rows = ([wrow] if wrow is not None else []) + list(getattr(interp, "ghost_rows", []))
+    some = z3.Or(*[z3.And(r >= 0, r < root.n, z3.substitute(dom, (root.u, r))) for r in rows]) if rows else z3.BoolVal(False)
+    ctx.oblige(f"{tag}.at_least_one_row", z3.Implies(guard, some), kind="pre")
     sym, d = sums.formal_stat(interp.ctx, "wmedian", root, dom, [real(x.t), real(to_term(weights) if not isinstance(weights, V) else weights.t)])
     out = V(sym)
     out.meta = ("stat", d)
